@@ -43,6 +43,9 @@ type cs struct {
 	F      int    `json:"f,omitempty"` // free-switch bound (0 = unbounded, n = at most n-1 non-default free switches)
 	E      int    `json:"e"`
 	Prefix []int  `json:"prefix,omitempty"` // replay: exact schedule
+	// Transport: "" = the scheduler's unbounded in-memory link under p2p.NewConn; "pipe" = p2p.Pipe() (the
+	// repository's own synchronous in-memory transport, its io.Pipe rewritten onto the scheduler)
+	Transport string `json:"transport,omitempty"`
 }
 
 func seqString(ops []Op) string {
@@ -229,9 +232,22 @@ func system(k cs, w *world) func() {
 		vnet.Reset()
 		w.a, w.b = vnet.Pipe("A", "B")
 		vnet.ReadAlts = regimeAlts(k.Regime)
+		var pa, pb *p2p.Conn
+		if k.Transport == "pipe" {
+			w.a, w.b = nil, nil
+			pa, pb = p2p.Pipe()
+		}
 		party := func(end *vnet.End, s *side, send, recv []Op) func() {
 			return func() {
-				conn := p2p.NewConn(end)
+				var conn *p2p.Conn
+				switch {
+				case k.Transport == "pipe" && s == &w.sa:
+					conn = pa
+				case k.Transport == "pipe":
+					conn = pb
+				default:
+					conn = p2p.NewConn(end)
+				}
 				s.sendErr = sendAll(conn, send)
 				if len(recv) > 0 && len(send) > 0 {
 					// both directions: make our data visible before waiting for the peer's
@@ -284,6 +300,13 @@ func judge(k cs, w *world, r *csched.Result) (string, string) {
 		if !s.eofOK {
 			return "eof", name + ": receive after the peer closed returned " + s.eofDesc
 		}
+	}
+	if w.a == nil {
+		// p2p.Pipe: no link counters to compare with; the two ends must agree with each other
+		if w.sa.sent != w.sb.recvd || w.sb.sent != w.sa.recvd {
+			return "stats-ends", fmt.Sprintf("A sent %d / B received %d; B sent %d / A received %d", w.sa.sent, w.sb.recvd, w.sb.sent, w.sa.recvd)
+		}
+		return "", ""
 	}
 	ar, aw := w.a.Counters()
 	br, bw := w.b.Counters()
@@ -568,6 +591,29 @@ func work(ctx *runner.Ctx) {
 			cases = append(cases, cs{A: []Op{{K: "d", N: 65536 - 4 - k}, it, {K: "b"}}, Regime: "all", P: 0, F: fb})
 		}
 	}
+	// 9. the repository's own in-memory transport p2p.Pipe() (synchronous: a write completes when it has been read)
+	for i, s := range seqs1 {
+		if quick && i%2 == 1 {
+			continue
+		}
+		cases = append(cases, cs{A: s, Regime: "all", Transport: "pipe", P: 1})
+	}
+	for i, s := range seqs2 {
+		if i%16 != 0 && quick || i%4 != 0 {
+			continue
+		}
+		cases = append(cases, cs{A: s, Regime: "all", Transport: "pipe", P: 1, F: fb})
+	}
+	for i, x := range small {
+		if quick && i%3 != 0 {
+			continue
+		}
+		cases = append(cases, cs{A: []Op{x, flush, {K: "w"}}, B: []Op{{K: "h"}, x}, Regime: "all", Transport: "pipe", P: 1, F: fb})
+	}
+	for _, n := range []int{65535, 65536, 65537, 3*65536 + 1} {
+		cases = append(cases, cs{A: []Op{{K: "d", N: n}, {K: "w"}}, Regime: "all", Transport: "pipe", P: 0, F: fb})
+		cases = append(cases, cs{A: []Op{{K: "b"}, {K: "s", N: n}, {K: "l"}}, Regime: "all", Transport: "pipe", P: 0, F: fb})
+	}
 	// the long fixed sequence of the repository's own test shape
 	long := []Op{{K: "b"}, {K: "h"}, {K: "w"}, {K: "d", N: 17}, {K: "s", N: 3}, {K: "l"}, {K: "z", N: 3}, flush, {K: "d", N: 65537}, {K: "w"}, {K: "l"}}
 	cases = append(cases, cs{A: long, Regime: "dev", P: 0, E: 2, F: fb}, cs{A: long, B: long, Regime: "all", P: 0, F: fb})
@@ -631,7 +677,7 @@ func dbg(ctx *runner.Ctx, format string, a ...interface{}) {
 }
 
 func desc(k cs) string {
-	return fmt.Sprintf("A=[%s] B=[%s] regime=%s P=%d E=%d F=%d", seqString(k.A), seqString(k.B), k.Regime, k.P, k.E, k.F)
+	return fmt.Sprintf("A=[%s] B=[%s] regime=%s%s P=%d E=%d F=%d", seqString(k.A), seqString(k.B), k.Regime, k.Transport, k.P, k.E, k.F)
 }
 
 func replay(ctx *runner.Ctx, raw json.RawMessage) {
